@@ -524,14 +524,14 @@ var _ *openfgav1.Userset
 //@   -- edge.weights by a fresh map whose values are the target's (+1 unless Infinite), and writes nothing else.
 //@   assumes path_kept: forall i int :: 0 <= i && i < len(ancestorPath) ==> ancestorPath[i] == old(ancestorPath[i])
 //@   assumes path_sep_kept: pathSep(wg, tupleCycleDependencies, ancestorPath)
-//@   assumes inv_linked: linked(wg)
+//@   ensures inv_linked: linked(wg)
 //@   assumes inv_wild: sepWildcards()
 //@   assumes inv_deps_wf: err == nil ==> depsWf(wg, tupleCycleDependencies)
 //@   assumes inv_deps_sep: err == nil ==> sepDeps(tupleCycleDependencies)
-//@   assumes inv_deps_ed: err == nil ==> sepED(wg, tupleCycleDependencies)
+//@   ensures inv_deps_ed: err == nil ==> sepED(wg, tupleCycleDependencies)
 //@   assumes inv_range_e: err == nil ==> inRangeE()
 //@   assumes inv_range_n: err == nil ==> inRangeN()
-//@   assumes edge_lists_kept: forall k string :: wg.edges[k] == old(wg.edges[k])
+//@   ensures edge_lists_kept: forall k string :: wg.edges[k] == old(wg.edges[k])
 //@   ensures error_is_sentinel: err != nil ==> wraps(err, ErrModelCycle) || wraps(err, ErrTupleCycle) || wraps(err, ErrInvalidModel)
 //@   -- self edge: a placeholder weight, the edge becomes a dependant of its own node, the node is reported as an open tuple cycle
 //@   ensures self_edge_placeholder: old(edge.from.uniqueLabel) == old(edge.to.uniqueLabel) && old(weightHop(edge)) ==> err == nil && len(result0) == 1 && result0[0] == old(edge.to.uniqueLabel)
@@ -548,6 +548,15 @@ var _ *openfgav1.Userset
 //@   ensures keys_copied: old(edge.from.uniqueLabel) != old(edge.to.uniqueLabel) && err == nil && len(edge.to.weights) != 0 ==> (forall k string :: has(edge.weights, k) <==> has(edge.to.weights, k))
 //@   ensures hop_added: old(edge.from.uniqueLabel) != old(edge.to.uniqueLabel) && err == nil && len(edge.to.weights) != 0 ==> (forall k string :: has(edge.weights, k)
 //@                              ==> edge.weights[k] == ite(weightHop(edge) && edge.to.weights[k] != Infinite, edge.to.weights[k] + 1, edge.to.weights[k]))
+//@   loop 1 invariant inv_linked: linked(wg) && wg.edges != tupleCycleDependencies && edge != nil && edge.from != nil && wg.nodes[edge.from.uniqueLabel] != nil
+//@   loop 1 invariant edge_lists_kept: forall k string :: wg.edges[k] == old(wg.edges[k])
+//@   loop 1 invariant inv_deps_ed: sepED(wg, tupleCycleDependencies)
+//@   loop 2 invariant inv_linked: linked(wg) && wg.edges != tupleCycleDependencies && edge != nil && edge.from != nil && wg.nodes[edge.from.uniqueLabel] != nil
+//@   loop 2 invariant edge_lists_kept: forall k string :: wg.edges[k] == old(wg.edges[k])
+//@   loop 2 invariant inv_deps_ed: sepED(wg, tupleCycleDependencies)
+//@   loop 3 invariant inv_linked: linked(wg) && wg.edges != tupleCycleDependencies && edge != nil && edge.from != nil && wg.nodes[edge.from.uniqueLabel] != nil
+//@   loop 3 invariant edge_lists_kept: forall k string :: wg.edges[k] == old(wg.edges[k])
+//@   loop 3 invariant inv_deps_ed: sepED(wg, tupleCycleDependencies)
 //@   loop 2 invariant fresh(weights) && weights != nil && edge.to != nil && edge.from != nil
 //@   loop 2 invariant forall k string :: has(weights, k) <==> $visited[k]
 //@   loop 2 invariant forall k string :: $visited[k] ==> has(edge.to.weights, k) && weights[k] == edge.to.weights[k]
